@@ -46,6 +46,20 @@ def showRes : Res → String
   | .failed .noCache => "fail:nocache"
   | .failed .panic => "panic"
 
+/-- specification: the session state the options demand of a served connection, judged on the
+    server's view of the connection (not on the command list): the authenticated user is the
+    configured user name (the server's default user only when none is configured), database, client
+    name, tracking mode, READONLY, NO-TOUCH, NO-EVICT and library info -/
+def demandedState (o : Opt) (u : String) : String :=
+  let trk := !o.disableCache
+  let (lib, ver) := match o.setInfo with
+    | .dflt => (Rv.Gen.InitPlan.libName, Rv.Gen.InitPlan.libVer)
+    | .pair a b => (a, b)
+    | .off => ("", "")
+  let b (x : Bool) : String := if x then "1" else "0"
+  s!"user={if u == "" then "default" else u} db={o.selectDB} name={dash o.clientName} trk={b trk} optin={b (trk && o.tracking.isNone)} " ++
+  s!"ro={b (o.replicaOnly && o.sentinelMasterSet == "")} nt={b o.noTouch} ne={b o.noEvict} lib={dash lib} ver={dash ver}"
+
 def kv (w : String) : String := (w.splitOn "=").getD 1 ""
 
 def step (_ : Unit) (ws : List String) : Unit × String :=
@@ -54,6 +68,13 @@ def step (_ : Unit) (ws : List String) : Unit × String :=
     let o := sentinelOpt { username := undash u, password := undash p, clientName := undash n, selectDB := db.toInt?.getD 0 }
       (undash su) (undash sp) (undash sn)
     ((), s!"{dash o.username} {dash o.password} {dash o.clientName} {o.selectDB} {o.credFn.isNone}")
+  | "!state" :: rest =>
+    match parseOpt (rest.take 16) with
+    | some (o, _) =>
+      match creds o with
+      | some (u, _) => ((), demandedState o u)
+      | none => ((), "no-credentials")
+    | none => ((), "bad-op")
   | "!sess" :: rest =>
     match parseOpt (rest.take 16), rest.drop 16 with
     | some (o, _), [served, proto, log, rep] =>
